@@ -55,3 +55,13 @@ package kadm
 //@   prop C35
 //@   nopanic
 //@   pure
+
+// Totals: each topic's total is built only from positive per-partition lags of that topic (so a partition
+// reported with Lag -1, i.e. an error, contributes nothing), every visited topic gets exactly its accumulated
+// value. (Total sums these per-topic values in a three-line loop that is not under contract. That the sum ranges over every partition once is the
+// map-range ghost set's exit condition; a closed form of the sum is not expressible in the contract language.)
+//@ func (l GroupLag) TotalByTopic() (m GroupTopicsLag)
+//@   prop C35
+//@   site store Lag#0 assert [adds-only-positive-lags-of-the-partition] val == prev + ps[p].Lag && ps[p].Lag > 0
+//@   site mapupdate TopicLag#0 assert [stores-the-topic-total] mapkey == t && val == mt && val.Topic == t
+
